@@ -39,7 +39,7 @@ MORE = [
     ['i1($X) :- p($X), ($X = a; $X = b), q($X).'], ['j1("x.y").', 'j1("p :- q").'], ['k1($X) :- $X = -3.5, $X <= -1.'],
     ['l1(a) :- true.', 'l1(b) :- fail.'], ['m1($X) :- include($X, [1, 2, 3], $Y), print_list($Y).'], ['n1(a, 2, 3.5, "s t", [1 | $T]).'],
     ['o1($X) :- functor($X, $F, $A), $A == 2; $X = none.'], ['p1 :- q1, r1; s1.', 'q1.', 'r1.', 's1.'], ['t1($X) :- time(q($X)).'],
-    ['u1($X) :- $X = 5 / 2.0.'], ['v1($A, $B) :- $A = $B.'], ['w1(0.5, .5).'], ['x1($X) :- p($X) , q($X) .'], ['y1($X):-p($X),q($X).'], ['z1(a).z2(b).'],
+    ['u1($X) :- $X = 5 / 2.0.'], ['v1($A, $B) :- $A = $B.'], ['w1(0.5, .5).'], ['x1($X) :- p($X) , q($X) .'], ['y1($X):-p($X),q($X).'],
 ]
 
 
